@@ -82,20 +82,26 @@ def upperStr (cfg : LexCfg) (s : List Char) : List Char := s.flatMap cfg.upper
 
 /-! ### numbers -/
 
+/-- the "numbers after the decimal point" step of consume_number: (text pushed, input after) -/
+def numFrac (dec : Char) (r : List Char) : List Char × List Char :=
+  match r with
+  | c :: u => if c = dec then ('.' :: u.takeWhile isDigit, u.dropWhile isDigit) else ([], r)
+  | [] => ([], r)
+
+/-- the "exponential side" step of consume_number: (text pushed, input after) -/
+def numExp (r : List Char) : List Char × List Char :=
+  match r with
+  | e :: x :: u =>
+    if (e = 'e' || e = 'E') && (x = '-' || x = '+' || isDigit x)
+    then ('e' :: x :: u.takeWhile isDigit, u.dropWhile isDigit) else ([], r)
+  | _ => ([], r)
+
 -- models lexer/mod.rs::consume_number: (the text handed to `parse::<f64>`, the input after it).
 -- `t` is the input after the character `first` that next_token has already read.
 def consumeNumber (dec : Char) (first : Char) (t : List Char) : List Char × List Char :=
-  let d1 := t.takeWhile isDigit
-  let r1 := t.dropWhile isDigit
-  let fr : List Char × List Char := match r1 with
-    | c :: u => if c = dec then ('.' :: u.takeWhile isDigit, u.dropWhile isDigit) else ([], r1)
-    | [] => ([], r1)
-  let ex : List Char × List Char := match fr.2 with
-    | e :: x :: u =>
-      if (e = 'e' || e = 'E') && (x = '-' || x = '+' || isDigit x)
-      then ('e' :: x :: u.takeWhile isDigit, u.dropWhile isDigit) else ([], fr.2)
-    | _ => ([], fr.2)
-  (first :: (d1 ++ (fr.1 ++ ex.1)), ex.2)
+  let fr := numFrac dec (t.dropWhile isDigit)
+  let ex := numExp fr.2
+  (first :: (t.takeWhile isDigit ++ (fr.1 ++ ex.1)), ex.2)
 
 def stripSign (s : List Char) : List Char :=
   match s with
